@@ -4,7 +4,7 @@ From Coq Require Import String.
 From Coq Require Import List ZArith Arith.
 Import ListNotations.
 Local Open Scope string_scope.
-From YP Require Import Base.Str Term.Term Term.Show Unify.Unify Engine.Db Engine.DbCursor Engine.DbFacts Engine.DbHeap.
+From YP Require Import Base.Str Term.Term Term.Show Unify.Unify Engine.Db Engine.DbCursor Engine.DbFacts Engine.DbHeap Engine.DbOpen.
 
 Definition args_obs (a : list term) : obs := OL (map term_obs a).
 
@@ -44,6 +44,27 @@ Proof.
   - inversion H; reflexivity.
   - destruct (step mt s e) as [[s1 o]|]; [|discriminate].
     destruct (run mt s1 r) as [[s2 os]|] eqn:E; [|discriminate]. inversion H; subst. simpl. f_equal. eauto.
+Qed.
+
+(* histories with operations over the variables of open cursors (DbOpen.v) *)
+Fixpoint xrun_obs (fuel : nat) (x : xst) (xs : list xev) : list obs :=
+  match xs with
+  | [] => []
+  | xe :: r =>
+      match xstep fuel x xe with
+      | None => [otag "stuck" []]
+      | Some (x1, _, o) => out_obs o :: xrun_obs fuel x1 r
+      end
+  end.
+
+Definition run_xevents (fuel : nat) (xs : list xev) : obs := OL (xrun_obs fuel xinit xs).
+
+Lemma xrun_obs_xrun fuel x xs x' es outs : xrun fuel x xs = Some (x', es, outs) -> xrun_obs fuel x xs = map out_obs outs.
+Proof.
+  revert x x' es outs. induction xs as [|xe r IH]; intros x x' es outs H; simpl in *.
+  - inversion H; reflexivity.
+  - destruct (xstep fuel x xe) as [[[x1 e] o]|]; [|discriminate].
+    destruct (xrun fuel x1 r) as [[[x2 es2] os]|] eqn:E; [|discriminate]. inversion H; subst. simpl. f_equal. eauto.
 Qed.
 
 (* ------------------------------------------------------------------ heap machine (C13) *)
